@@ -499,8 +499,12 @@ def program_equivalence(prog1, prog2, compare_params=True, atol=1e-6, rtol=0):
         wire_match = n1["w"] == n2["w"]
 
         if compare_params:
-            p_match = np.allclose(n1["p"], n2["p"], atol=atol, rtol=rtol)
-            return name_match and p_match and wire_match
+            if not (name_match and wire_match) or len(n1["p"]) != len(n2["p"]):
+                return False
+            return all(
+                np.shape(p1) == np.shape(p2) and np.allclose(p1, p2, atol=atol, rtol=rtol)
+                for p1, p2 in zip(n1["p"], n2["p"])
+            )
 
         return name_match and wire_match
 
